@@ -153,7 +153,7 @@ def run_gulp(case, ctx, rng):
         ctx.violation("gulp_r", "%s row %d: separation %s expected %s (columns are 'energy separation')" % (where, i, r_tok, float(dr * i)), what="gulp_r")
         break
     for i in idx:
-      oracle.check_value(ctx, "gulp_energy", b["rows"][i][0], o, R.F(dr * i), where="%s row %d" % (where, i))
+      oracle.check_value(ctx, "gulp_energy", b["rows"][i][0], o, R.F(dr * i), where="%s row %d" % (where, i), fmt="gulp")
     nz = nz or len(set(e for e, _ in b["rows"])) > 1
   ctx.nontrivial(nz)
 
@@ -216,7 +216,7 @@ def run_adp(case, ctx, rng):
       o = ref.pairlike(key, a, b)
       if ref.declared_pair(key, a, b):
         declared += 1
-      eamref.check_series(ctx, "adp_" + blk, toks, o, dr, ridx, "%s[%s,%s] route=%s" % (blk, a, b, route), scale_r=False)
+      eamref.check_series(ctx, "adp_" + blk, toks, o, dr, ridx, "%s[%s,%s] route=%s" % (blk, a, b, route), scale_r=False, fmt="setfl")
       nz = nz or any(float(t) != 0.0 for t in toks)
   # a light check of the setfl part as well (full check is C03)
   for (i, j), toks in p["rphi"].items():
@@ -275,8 +275,8 @@ def run_funcfl(case, ctx, rng):
   Z, mass, exact, a0, lat = spec.eam_expected_metadata(model, s)
   if p["Z"] != Z or p["lattice"] != lat:
     ctx.violation("funcfl_meta", "Z=%r lattice=%r expected %r %r" % (p["Z"], p["lattice"], Z, lat), what="funcfl_meta")
-  eamref.check_series(ctx, "funcfl_F", p["F"], ref.embed(s), drho, rhoidx, "F")
-  eamref.check_series(ctx, "funcfl_rho", p["rho"], ref.density(s), dr, ridx, "rho")
+  eamref.check_series(ctx, "funcfl_F", p["F"], ref.embed(s), drho, rhoidx, "F", fmt="funcfl")
+  eamref.check_series(ctx, "funcfl_rho", p["rho"], ref.density(s), dr, ridx, "rho", fmt="funcfl")
   nz = False
   for i in ridx:
     if i == 0:
